@@ -53,13 +53,24 @@ def mass_algebra(eng, res, rule="R-MASS-ALGEBRA"):
         param = fi.params[1] if len(fi.params) > 1 else None
         env = {}
         # the setter's parameter is the quantity it sets (after `self._x = param`)
-        stores_param = [n for n in own_nodes(fi.node) if isinstance(n, ast.Assign) and isinstance(n.value, ast.Name) and n.value.id == param
+        def _is_param(v):
+            if isinstance(v, ast.Call) and callee_name(v) == "float" and len(v.args) == 1 and not v.keywords:
+                v = v.args[0]
+            return isinstance(v, ast.Name) and v.id == param
+
+        stores_param = [n for n in own_nodes(fi.node) if isinstance(n, ast.Assign) and _is_param(n.value)
                         and isinstance(n.targets[0], ast.Attribute) and n.targets[0].attr in SYM]
         if stores_param:
             env[param] = SYM[stores_param[0].targets[0].attr]
         res.ob(rule, fi, "param-is-quantity", f"the setter stores its argument as the quantity it sets", fi.node, len(stores_param) == 1, f"{len(stores_param)} plain store(s) of the argument")
         flow = eng.flow(fi)
         cfg = flow.cfg
+        for sp in stores_param:
+            # ... and stores it as given: the value written is the caller's value (at most converted with float()), on every path
+            t = flow.expand(sp.value, cfg.node_of(sp), depth=6)
+            tt = src(t)
+            ok = tt in (param, f"float({param})")
+            res.ob(rule, fi, "argument-stored-verbatim", "the value a setter stores is the caller's value itself (no re-scaling, no case distinction on its size)", sp, ok, f"stores {tt[:120]}")
         for n in own_nodes(fi.node):
             if isinstance(n, ast.Assign) and len(n.targets) == 1 and isinstance(n.targets[0], ast.Attribute) and n.targets[0].attr in SYM:
                 if n in stores_param:
